@@ -144,6 +144,32 @@ def run(tier, seed):
         chk.evals += 1
         if il != ref:
             chk.diverge("validate_certificate_chain vs reference oracle", f"impl {il} ref {ref}", {"x5c": [c.hex() for c in x5c], "n_roots": len(roots)})
+    # format names the changed source newly mentions (harness/srcdict.py): a statement whose chain does NOT reach the anchors the RP configured for its format must not become
+    # acceptable by being presented under / wrapped into such a name (the statement itself, a list of {fmt, attStmt} maps as in L3's "compound", a map of them)
+    from harness import srcdict
+    import cbor2 as _cb
+    for w in [x for x in srcdict.words() if x.isascii() and x[:1].isalpha()][:10]:
+        for fmt in ("packed", "tpm", "fido-u2f"):
+            for mode in ("unrelated", "impostor"):
+                s = regsim.RScn(fmt, "ES256-P256")
+                s.roots_mode = mode
+                s.n_inter = 0 if fmt == "fido-u2f" else 1
+                pd, reg = regsim.build(s)
+                pol = regrun.policy_of(pd)
+                try:
+                    ao = _cb.loads(reg.att_obj)
+                except Exception:
+                    continue
+                inner = {"fmt": ao["fmt"], "attStmt": ao["attStmt"]}
+                for how, stmt_ in (("the statement itself", ao["attStmt"]), ("a list of two {fmt, attStmt} maps", [inner, inner]), ("a list of one", [inner]), ("a map of them", {"0": inner, "1": inner}),
+                                   ("a map with the list under 'attStmts'", {"attStmts": [inner, inner]})):
+                    reg2 = regsim.Registration(reg.cred, reg.cred_id, reg.cdj, _cb.dumps({"fmt": w, "attStmt": stmt_, "authData": ao["authData"]}), id_text=reg.id_text, typ=reg.typ)
+                    o2 = impl.verify_reg(pol, reg2.as_dict())
+                    chk.evals += 1
+                    if o2.startswith("OK"):
+                        chk.violation(f"a {fmt} statement whose chain does not reach the anchors configured for {fmt} ({mode} root) is accepted when presented as fmt={w!r} ({how})", f"reg-accepts wrapped-in-new-format {w} {fmt}",
+                                      {"entry": "verify_registration_response", "policy": pol.describe(), "credential": reg2.as_dict(), "wrapped_as": w, "how": how})
+                        break
     from harness import chainview
     chainview.cross_check(chk, B.R, B.O.chain_log)
     B.close()
